@@ -414,7 +414,7 @@ def c14_job(job) -> List[Dict[str, Any]]:
                   lambda: {'out': project_hands(hands_parser(reord))})
         # what a decoder returns is a deal like any other: it goes through every
         # encoder again (decode -> encode chains)
-        if 'b' in box and r.random() < 0.5:
+        if 'b' in box and r.random() < 0.2:
             for nm, dec in (('tuple', lambda: Hands.convert_binary(box['b'])),
                             ('np', lambda: Hands.convert_np_binary(hb.to_np_binary())),
                             ('json', lambda: hands_parser(convert_deal(hb))),
